@@ -61,6 +61,9 @@ class Ctx:
         try:
             f = p.fn(pattern, crate)
             self.analysed_fns.add(f.id)
+            rp = f.reassigned_params()
+            if rp:
+                self.note("%s re-assigns parameter(s) %s: `expr` of those renders the incoming value only" % (f.short, rp))
             return f
         except AnchorMissing as e:
             self.ob("anchor-missing:fn:" + pattern, False, "anchor not found: %s" % e, where="(anchor)")
